@@ -145,9 +145,12 @@ func (p Path) ContainsText(contained string) bool {
 // components, like "../../wip/mk/../../devel/gettext-lib". To ignore these
 // components, use ContainsPathCanonical instead.
 func (p Path) ContainsPath(sub Path) bool {
-	limit := len(p) - len(sub)
-	for i := 0; i <= limit; i++ {
-		if (i == 0 || p[i-1] == '/') && p[i:].HasPrefixPath(sub) {
+	// Try every position where a path component starts.
+	// The length of sub in bytes says nothing about where it may match,
+	// since it may contain redundant slashes or dots.
+	for i := 0; i <= len(p); i++ {
+		atComponent := i == 0 || p[i-1] == '/' && (i == len(p) || p[i] != '/')
+		if atComponent && p[i:].HasPrefixPath(sub) {
 			return true
 		}
 	}
